@@ -11,7 +11,7 @@ ASSUME = ["registers are numpy uint64; values fit in b bits (the property's prec
           "getlist is checked against the model only (its spec is the composition of C13_getitem and C13_unpack_pack)"]
 RULE = ("b in {1,2,4,8,16,32}; lengths 0..3k+1 and 3k-1,3k,3k+1,5k+3 (k=64/b) (thorough: up to 6k+2 and random lengths up to 400); "
         "value patterns all-ones / affine / random from the run seed; input dtypes uint64,int64,uint8|uint32; every window 1..k at the "
-        "boundary sizes and a seeded sample of the others (thorough: all); non-trivial = more than one element and not all zero; "
+        "boundary sizes and a seeded sample of the others (thorough: all), windows longer than the array included (no window at all); non-trivial = more than one element and not all zero; "
         "distinct = distinct protocol line")
 
 
@@ -60,8 +60,8 @@ def run(R, tier, rng):
                     except Exception: e = None
                     add("bit_unpack " + show(a) + " " + str(b), e, "unpack-after-reads", a)
                 for w in range(1, k + 1):
-                    if n - w + 1 <= 0: continue
-                    if tier != "thorough" and w not in (1, 2, k - 1, k) and rng.random() < .7: continue
+                    if n - w + 1 <= 0 and (w not in (n + 1, n + 2, n + 3, k) or pat == 1): continue      # windows longer than the array: no position has a window (F36)
+                    if tier != "thorough" and w not in (1, 2, k - 1, k, n + 1, n + 2) and rng.random() < .7: continue
                     try: e = [int(x) for x in p.sliding_window(w)]
                     except Exception: e = None
                     add("bit_window " + show(a) + " " + str(b) + " " + str(w), e, "window", a)
